@@ -187,7 +187,62 @@ pub fn run(tier: &str) -> Result<Report, String> {
             rep.violations.extend(bad.into_iter().take(20));
         }
     }
+    // the multi-formula entry points: every ordered pair and triple of a pool of formulae of
+    // different heights: sanitised[i] must equal raw[i] (and the oracle) position by position
+    {
+        use biodivine_hctl_model_checker::model_checking as mc;
+        let b = by_name(&nets, "con2");
+        let env = Env::new(&b)?;
+        let ctx = &env.ctxs[2];
+        let pool: Vec<F> = ["a", "~ b", "EX (a & b)", "AG (EF (~ a))", "!{x}: AX {x}", "!{x}: 3{y}: (@{x}: EF {y})", "EF (AG (a | EX b))", "3{x}: @{x}: (a & AX {x})"].iter().map(|t| crate::formulas::f(t, &ctx.user)).collect();
+        let texts: Vec<String> = pool.iter().map(|f| f.show(&ctx.user)).collect();
+        let expected: Vec<Vec<Mask>> = pool.iter().map(|f| ctx.expected(f)).collect();
+        let n = pool.len();
+        let mut lists: Vec<Vec<usize>> = vec![];
+        for l in 2..=3usize {
+            for mut code in 0..n.pow(l as u32) {
+                let mut v = vec![];
+                for _ in 0..l {
+                    v.push(code % n);
+                    code /= n;
+                }
+                lists.push(v);
+            }
+        }
+        let bad: Vec<Violation> = lists
+            .par_iter()
+            .filter_map(|l| {
+                let ts: Vec<&str> = l.iter().map(|i| texts[*i].as_str()).collect();
+                let r = guarded(AssertUnwindSafe(|| (mc::model_check_multiple_formulae(ts.clone(), &ctx.b.graph), mc::model_check_multiple_formulae_dirty(ts.clone(), &ctx.b.graph), mc::_model_check_multiple_formulae(ts.clone(), &ctx.b.graph, &mut |_, _| {}))));
+                let what = match r {
+                    Ok((Ok(clean), Ok(dirty), Ok(clean2))) => {
+                        let mut w = None;
+                        if clean.len() != l.len() || dirty.len() != l.len() || clean2.len() != l.len() {
+                            w = Some("wrong number of results".to_string());
+                        } else {
+                            for (pos, idx) in l.iter().enumerate() {
+                                let cm = ctx.masks_of_canonical(&clean[pos]);
+                                let dm = ctx.b.masks_of(&dirty[pos]);
+                                if cm != dm || cm != expected[*idx] || clean2[pos] != clean[pos] {
+                                    w = Some(format!("position {pos} ({}): sanitised {:?}, raw {:?}, oracle {:?}", texts[*idx], cm, dm, expected[*idx]));
+                                    break;
+                                }
+                            }
+                        }
+                        w
+                    }
+                    Ok(other) => Some(format!("an entry point returned Err: {:?}", (other.0.map(|_| "ok"), other.1.map(|_| "ok"), other.2.map(|_| "ok")))),
+                    Err(p) => Some(format!("panic: {p}")),
+                };
+                what.map(|w| Violation { case: json!({"kind": "none"}), what: format!("model_check_multiple_formulae vs _dirty on {ts:?} (con2, k=2): {w}"), size: 1000 + l.len() })
+            })
+            .collect();
+        rep.evaluations += lists.len() as u64 * 3;
+        rep.distinct_nontrivial += lists.len() as u64;
+        rep.set("multi_formula_lists", json!(lists.len()));
+        rep.violations.extend(bad.into_iter().take(20));
+    }
     rep.sample(json!({"network": "con2", "formula": "(!{x}: (3{y}: ((@{x}: (AX {y})) & (EF {x}))))", "k": [2, 3, 5], "check": "model_check_formula == model_check_formula_dirty point-wise; BDD over the variables of SymbolicContext::new; identical for all k; usable with SymbolicAsyncGraph::new"}));
-    rep.rule = format!("every closed plain formula with <= {m} nodes and every plain template formula on {which:?}, on graphs with k = d, d+1, d+3 spare variable sets (d = quantifier nesting depth): sanitised result == raw result on every state x valid colour == explicit-state oracle; expressed over exactly the variables of SymbolicContext::new(network); subset of and usable with SymbolicAsyncGraph::new(network); BDD-identical for all k; every multi-colour network additionally with the unit set of the graph restricted (SymbolicAsyncGraph::restrict) to every second valid colour, where raw and sanitised results must also stay inside the restricted unit set. distinct_nontrivial = number of (formula, network) pairs");
+    rep.rule = format!("every closed plain formula with <= {m} nodes and every plain template formula on {which:?}, on graphs with k = d, d+1, d+3 spare variable sets (d = quantifier nesting depth): sanitised result == raw result on every state x valid colour == explicit-state oracle; expressed over exactly the variables of SymbolicContext::new(network); subset of and usable with SymbolicAsyncGraph::new(network); BDD-identical for all k; every multi-colour network additionally with the unit set of the graph restricted (SymbolicAsyncGraph::restrict) to every second valid colour, where raw and sanitised results must also stay inside the restricted unit set; and every ordered pair and triple over a pool of 8 formulae of different heights through model_check_multiple_formulae vs model_check_multiple_formulae_dirty, position by position. distinct_nontrivial = number of (formula, network) pairs");
     Ok(rep)
 }
